@@ -214,7 +214,7 @@ func tableScen(c *evid.Case, n int) scen {
 	}
 	cases := c.Lane.Cases(c.Tier)
 	g := c.Idx*cases + c.Index
-	off := int(uint64(c.Seed)*2654435761%uint64(len(*tb)))
+	off := int(uint64(c.Seed) * 2654435761 % uint64(len(*tb)))
 	s := (*tb)[(off+g*stride)%len(*tb)]
 	c.Max("max_scenario_table_n"+fmt.Sprint(n), int64(len(*tb)))
 	// draw the operator under test, map the bad offsets onto the other operators
@@ -291,19 +291,19 @@ type pmsg struct {
 }
 
 type histo struct {
-	c      reporter
-	rng    *rand.Rand
-	sample bool
-	st    *state
-	s     scen
-	cl    *dsim.Cluster
-	op    *dsim.Operator
-	duty  *spectypes.Duty
-	exp   []dsim.Expected
-	typ   spectypes.PartialSigMsgType
-	id    spectypes.MessageID
-	log   []string
-	value []byte
+	c            reporter
+	rng          *rand.Rand
+	sample       bool
+	st           *state
+	s            scen
+	cl           *dsim.Cluster
+	op           *dsim.Operator
+	duty         *spectypes.Duty
+	exp          []dsim.Expected
+	typ          spectypes.PartialSigMsgType
+	id           spectypes.MessageID
+	log          []string
+	value        []byte
 	setupSubmits int
 	findings     [][2]string
 }
@@ -874,4 +874,3 @@ func (h *histo) shape() string {
 func (h *histo) witness(list []pmsg) map[string]any {
 	return map[string]any{"scenario": h.s.String(), "history": h.log, "operator_inputs": tail(h.cl.Acts, 80)}
 }
-
